@@ -1,4 +1,556 @@
-use crate::world::World;
-use crate::Cx;
+//! Family 7: the three validators over attacker tokens (signed by harness keys) against documents
+//! that also carry attacker-chosen keys.
+use crate::gen::{self, NUM_TOKENS};
+use crate::world::{sign_compact, SigMod, World, HOLDER_DID, ISSUER_DID, SIGMODS};
+use crate::{Cx, In};
+use identity_core::common::Object;
+use identity_core::convert::{FromJson, ToJson};
+use identity_credential::credential::Jwt;
+use identity_credential::sd_jwt_payload::{KeyBindingJwtClaims, SdJwt, SdObjectDecoder};
+use identity_credential::validator::{
+  FailFast, JwtCredentialValidationOptions, JwtCredentialValidator, JwtCredentialValidatorUtils, JwtPresentationValidationOptions, JwtPresentationValidator,
+  JwtPresentationValidatorUtils, KeyBindingJWTValidationOptions, SdJwtCredentialValidator,
+};
+use identity_did::CoreDID;
+use identity_document::document::CoreDocument;
+use identity_ecdsa_verifier::EcDSAJwsVerifier;
+use identity_eddsa_verifier::EdDSAJwsVerifier;
+use identity_iota_core::{IotaDID, IotaDocument};
+use serde_json::{json, Value};
+use vh::b64::url_encode;
+use vh::keys::sha256;
 use vh::Rng;
-pub fn run(_cx: &mut Cx, _w: &World, _rng: &mut Rng, _budget: u64) {}
+
+pub const CRED_OPTS: &[&str] = &[
+  r#"{}"#,
+  r#"{"earliestExpiryDate":"2020-01-01T00:00:00Z","latestIssuanceDate":"2030-01-01T00:00:00Z","status":0,"verificationOptions":{}}"#,
+  r#"{"earliestExpiryDate":"0000-01-01T00:00:00Z","latestIssuanceDate":"9999-12-31T23:59:59Z","status":1}"#,
+  r#"{"earliestExpiryDate":"9999-12-31T23:59:59Z","latestIssuanceDate":"0000-01-01T00:00:00Z","status":2}"#,
+  r#"{"latestIssuanceDate":"2030-01-01T00:00:00Z","subjectHolderRelationship":["did:iota:0x71b709dff439f1ac9dd2b9c2e28db0807156b378e13bfa3605ce665aa0d0fdca",0]}"#,
+  r#"{"latestIssuanceDate":"2030-01-01T00:00:00Z","subjectHolderRelationship":["a:",1]}"#,
+  r#"{"latestIssuanceDate":"2030-01-01T00:00:00Z","verificationOptions":{"nonce":"n"}}"#,
+  r#"{"latestIssuanceDate":"2030-01-01T00:00:00Z","verificationOptions":{"methodScope":{"VerificationRelationship":"AssertionMethod"}}}"#,
+  r#"{"latestIssuanceDate":"2030-01-01T00:00:00Z","verificationOptions":{"methodScope":"VerificationMethod"}}"#,
+  r#"{"latestIssuanceDate":"2030-01-01T00:00:00Z","verificationOptions":{"methodId":"did:iota:0x8036235b6b5939435a45d68bcea7890eef399209a669c8c263fac7f5089b2ec6#p256"}}"#,
+  r#"{"latestIssuanceDate":"2030-01-01T00:00:00Z","verificationOptions":{"methodId":"did:iota:0x8036235b6b5939435a45d68bcea7890eef399209a669c8c263fac7f5089b2ec6#p256-x31"}}"#,
+  r#"{"latestIssuanceDate":"2030-01-01T00:00:00Z","verificationOptions":{"methodId":"did:example:other#k"}}"#,
+];
+
+fn parse_opts<T: FromJson>(list: &[&str], what: &str) -> Vec<(String, T)> {
+  list.iter().map(|s| (s.to_string(), T::from_json(s).unwrap_or_else(|e| panic!("harness {} options {}: {}", what, s, e)))).collect()
+}
+
+pub struct V {
+  ed: JwtCredentialValidator<EdDSAJwsVerifier>,
+  ec: JwtCredentialValidator<EcDSAJwsVerifier>,
+  ped: JwtPresentationValidator<EdDSAJwsVerifier>,
+  pec: JwtPresentationValidator<EcDSAJwsVerifier>,
+  sed: SdJwtCredentialValidator<EdDSAJwsVerifier>,
+  sec: SdJwtCredentialValidator<EcDSAJwsVerifier>,
+  copts: Vec<(String, JwtCredentialValidationOptions)>,
+  popts: Vec<(String, JwtPresentationValidationOptions)>,
+  kopts: Vec<(String, KeyBindingJWTValidationOptions)>,
+  iota_issuer: IotaDocument,
+}
+
+impl V {
+  pub fn new(w: &World) -> V {
+    let popts = [
+      r#"{}"#,
+      r#"{"presentationVerifierOptions":{},"earliestExpiryDate":"2020-01-01T00:00:00Z","latestIssuanceDate":"2030-01-01T00:00:00Z"}"#,
+      r#"{"earliestExpiryDate":"9999-12-31T23:59:59Z","latestIssuanceDate":"0000-01-01T00:00:00Z"}"#,
+      r#"{"presentationVerifierOptions":{"nonce":"n"},"latestIssuanceDate":"2030-01-01T00:00:00Z"}"#,
+      r#"{"presentationVerifierOptions":{"methodScope":{"VerificationRelationship":"Authentication"}},"latestIssuanceDate":"2030-01-01T00:00:00Z"}"#,
+      r#"{"presentationVerifierOptions":{"methodId":"did:iota:0x71b709dff439f1ac9dd2b9c2e28db0807156b378e13bfa3605ce665aa0d0fdca#k256-x31"},"latestIssuanceDate":"2030-01-01T00:00:00Z"}"#,
+    ];
+    let kopts = [
+      r#"{"jwsOptions":{}}"#,
+      r#"{"jwsOptions":{},"nonce":"nonce-1","aud":"https://verifier.example.org","earliestIssuanceDate":"2000-01-01T00:00:00Z","latestIssuanceDate":"2100-01-01T00:00:00Z"}"#,
+      r#"{"jwsOptions":{},"nonce":"x"}"#,
+      r#"{"jwsOptions":{},"aud":"x"}"#,
+      r#"{"jwsOptions":{},"earliestIssuanceDate":"9999-12-31T23:59:59Z"}"#,
+      r#"{"jwsOptions":{},"latestIssuanceDate":"0000-01-01T00:00:00Z"}"#,
+      r#"{"jwsOptions":{"methodId":"did:iota:0x71b709dff439f1ac9dd2b9c2e28db0807156b378e13bfa3605ce665aa0d0fdca#p256-x31"}}"#,
+      r#"{"jwsOptions":{"methodScope":{"VerificationRelationship":"KeyAgreement"}}}"#,
+    ];
+    V {
+      ed: JwtCredentialValidator::with_signature_verifier(EdDSAJwsVerifier::default()),
+      ec: JwtCredentialValidator::with_signature_verifier(EcDSAJwsVerifier::default()),
+      ped: JwtPresentationValidator::with_signature_verifier(EdDSAJwsVerifier::default()),
+      pec: JwtPresentationValidator::with_signature_verifier(EcDSAJwsVerifier::default()),
+      sed: SdJwtCredentialValidator::with_signature_verifier(EdDSAJwsVerifier::default(), SdObjectDecoder::new_with_sha256()),
+      sec: SdJwtCredentialValidator::with_signature_verifier(EcDSAJwsVerifier::default(), SdObjectDecoder::new_with_sha256()),
+      copts: parse_opts(CRED_OPTS, "credential"),
+      popts: parse_opts(&popts, "presentation"),
+      kopts: parse_opts(&kopts, "key binding"),
+      iota_issuer: IotaDocument::from_json(&format!(r#"{{"doc":{},"meta":{{"created":"2022-01-01T00:00:00Z","updated":"2022-01-01T00:00:00Z"}}}}"#, w.issuer_doc_json)).expect("harness iota issuer document"),
+    }
+  }
+}
+
+fn alg_of(frag: &str) -> &'static str {
+  if frag.starts_with("p256") {
+    "ES256"
+  } else if frag.starts_with("k256") {
+    "ES256K"
+  } else {
+    "EdDSA"
+  }
+}
+
+/// method fragments used as `kid`: valid keys mostly, hostile keys and non-keys sometimes
+pub fn pick_frag(w: &World, rng: &mut Rng) -> String {
+  match rng.below(10) {
+    0..=4 => rng.pick(&["ed", "p256", "k256", "ed-noalg"]).to_string(),
+    5..=7 => w.hostile[rng.usize(w.hostile.len())].0.clone(),
+    8 => rng.pick(&["mb", "mb-bad", "embedded-auth", "rev", "ld", "nope", ""]).to_string(),
+    _ => gen::any_token(rng).to_string(),
+  }
+}
+
+pub fn validate_credential(cx: &mut Cx, v: &V, w: &World, rng: &mut Rng, jwt_s: &str, all_opts: bool) {
+  let jwt = Jwt::new(jwt_s.to_string());
+  let n = if all_opts { v.copts.len() } else { 2 };
+  for k in 0..n {
+    let (oname, opts) = if all_opts { &v.copts[k] } else { &v.copts[rng.usize(v.copts.len())] };
+    let ff = if rng.bool() { FailFast::AllErrors } else { FailFast::FirstError };
+    let i = In::C(jwt_s, oname);
+    for which in 0..2 {
+      let entry = if which == 0 { "JwtCredentialValidator::validate" } else { "JwtCredentialValidator::validate" };
+      let r = cx.ent(entry, i, || {
+        let r = if which == 0 { v.ed.validate::<CoreDocument, Object>(&jwt, &w.issuer_doc, opts, ff) } else { v.ec.validate::<CoreDocument, Object>(&jwt, &w.issuer_doc, opts, ff) };
+        r.map_err(|e| (e.to_string(), e))
+      });
+      if let Some(d) = r {
+        cx.rep.inc("credentials_validated");
+        cx.acc("DecodedJwtCredential.sweep", i, || (d.credential.to_json().is_ok(), d.header.kid().map(str::len), d.custom_claims.as_ref().map(|c| c.len()), format!("{:?}", d).len(), d.credential.serialize_jwt(d.custom_claims.clone()).is_ok()));
+      }
+    }
+  }
+  let i = In::S(jwt_s);
+  cx.ent("JwtCredentialValidator::validate<IotaDocument>", i, || v.ed.validate::<IotaDocument, Object>(&jwt, &v.iota_issuer, &v.copts[1].1, FailFast::AllErrors).map(|d| d.credential.to_json().is_ok()));
+  cx.ent("JwtCredentialValidator::verify_signature", i, || {
+    v.ec.verify_signature::<CoreDocument, Value>(&jwt, &[w.holder_doc.clone(), w.issuer_doc.clone()], &v.copts[0].1.verification_options).map(|d| d.credential.to_json().is_ok()).map_err(|e| (e.to_string(), e))
+  });
+  cx.ent("JwtCredentialValidatorUtils::extract_issuer_from_jwt", i, || JwtCredentialValidatorUtils::extract_issuer_from_jwt::<CoreDID>(&jwt));
+  cx.ent("JwtCredentialValidatorUtils::extract_issuer_from_jwt", i, || JwtCredentialValidatorUtils::extract_issuer_from_jwt::<IotaDID>(&jwt));
+}
+
+pub fn validate_presentation(cx: &mut Cx, v: &V, w: &World, rng: &mut Rng, jwt_s: &str, all_opts: bool) {
+  let jwt = Jwt::new(jwt_s.to_string());
+  let n = if all_opts { v.popts.len() } else { 2 };
+  for k in 0..n {
+    let (oname, opts) = if all_opts { &v.popts[k] } else { &v.popts[rng.usize(v.popts.len())] };
+    let i = In::C(jwt_s, oname);
+    if let Some(d) = cx.ent("JwtPresentationValidator::validate", i, || v.ped.validate::<CoreDocument, Jwt, Object>(&jwt, &w.holder_doc, opts).map_err(|e| (e.to_string(), e))) {
+      cx.rep.inc("presentations_validated");
+      cx.acc("DecodedJwtPresentation.sweep", i, || (d.presentation.to_json().is_ok(), d.header.kid().map(str::len), d.expiration_date.map(|t| t.to_rfc3339().len()), d.issuance_date.map(|t| t.to_rfc3339().len()), d.aud.is_some(), format!("{:?}", d).len()));
+      // the embedded credentials are attacker data too
+      let creds: Vec<String> = d.presentation.verifiable_credential.iter().take(3).map(|j| j.as_str().to_string()).collect();
+      for c in creds {
+        validate_credential(cx, v, w, rng, &c, false);
+      }
+    }
+    if let Some(d) = cx.ent("JwtPresentationValidator::validate", i, || v.pec.validate::<CoreDocument, Value, Value>(&jwt, &w.holder_doc, opts).map_err(|e| (e.to_string(), e))) {
+      cx.rep.inc("presentations_validated");
+      cx.acc("DecodedJwtPresentation.sweep", i, || (d.presentation.to_json().is_ok(), format!("{:?}", d).len()));
+    }
+  }
+  let i = In::S(jwt_s);
+  cx.ent("JwtPresentationValidatorUtils::extract_holder", i, || JwtPresentationValidatorUtils::extract_holder::<CoreDID>(&jwt));
+  cx.ent("JwtPresentationValidatorUtils::extract_holder", i, || JwtPresentationValidatorUtils::extract_holder::<IotaDID>(&jwt));
+}
+
+pub fn validate_sd_jwt(cx: &mut Cx, v: &V, w: &World, rng: &mut Rng, s: &str, all_opts: bool) {
+  let i = In::S(s);
+  let Some(sd) = cx.ent("SdJwt::parse", i, || SdJwt::parse(s)) else { return };
+  cx.acc("SdJwt.sweep", i, || (sd.presentation().len(), sd.to_string().len(), sd.disclosures.len(), sd.key_binding_jwt.is_some(), sd.clone() == sd, format!("{:?}", sd).len()));
+  let (oname, opts) = &v.copts[if all_opts { 1 } else { rng.usize(v.copts.len()) }];
+  let io = In::C(s, oname);
+  for which in 0..2 {
+    let entry = if which == 0 { "SdJwtCredentialValidator::validate_credential" } else { "SdJwtCredentialValidator::validate_credential" };
+    let r = cx.ent(entry, io, || {
+      let r = if which == 0 { v.sed.validate_credential::<CoreDocument, Object>(&sd, &w.issuer_doc, opts, FailFast::AllErrors) } else { v.sec.validate_credential::<CoreDocument, Object>(&sd, &w.issuer_doc, opts, FailFast::FirstError) };
+      r.map_err(|e| (e.to_string(), e))
+    });
+    if let Some(d) = r {
+      cx.rep.inc("sd_jwt_validated");
+      cx.acc("DecodedJwtCredential.sweep", io, || (d.credential.to_json().is_ok(), format!("{:?}", d).len()));
+    }
+  }
+  cx.ent("SdJwtCredentialValidator::verify_signature", i, || v.sec.verify_signature::<CoreDocument, Object>(&sd, std::slice::from_ref(&w.issuer_doc), &opts.verification_options).map(|d| d.credential.to_json().is_ok()).map_err(|e| (e.to_string(), e)));
+  let n = if all_opts { v.kopts.len() } else { 2 };
+  for k in 0..n {
+    let (kname, ko) = if all_opts { &v.kopts[k] } else { &v.kopts[rng.usize(v.kopts.len())] };
+    let ik = In::C(s, kname);
+    for which in 0..2 {
+      let entry = if which == 0 { "SdJwtCredentialValidator::validate_key_binding_jwt" } else { "SdJwtCredentialValidator::validate_key_binding_jwt" };
+      let r = cx.ent(entry, ik, || {
+        let r = if which == 0 { v.sed.validate_key_binding_jwt(&sd, &w.holder_doc, ko) } else { v.sec.validate_key_binding_jwt(&sd, &w.holder_doc, ko) };
+        r.map_err(|e| (e.to_string(), e))
+      });
+      if let Some(c) = r {
+        cx.rep.inc("kb_jwt_validated");
+        cx.acc("KeyBindingJwtClaims.sweep", ik, || (c.iat, c.aud.len(), c.nonce.len(), c.sd_hash.len(), c.properties.len(), serde_json::to_string(&c).is_ok()));
+      }
+    }
+  }
+}
+
+/// digest of a disclosure as the SD-JWT drafts define it: base64url(sha256(ascii(disclosure)))
+pub fn disclosure(salt: &str, name: Option<&str>, value: &Value) -> (String, String) {
+  let arr = match name {
+    Some(n) => json!([salt, n, value]),
+    None => json!([salt, value]),
+  };
+  let d = url_encode(arr.to_string().as_bytes());
+  let digest = url_encode(&sha256(d.as_bytes()));
+  (d, digest)
+}
+
+pub struct SdParts {
+  pub claims: Value,
+  pub disclosures: Vec<String>,
+}
+
+/// A credential whose subject conceals `GPA` (object property), one array element and a nested object.
+pub fn sd_claims(w: &World) -> SdParts {
+  let (d1, h1) = disclosure("2GLC42sKQveCfGfryNRN9w", Some("GPA"), &json!("4.0"));
+  let (d2, h2) = disclosure("eluV5Og3gSNII8EYnsxA_A", None, &json!("DE"));
+  let (d4, h4) = disclosure("Qg_O64zqAxe412a108iroA", Some("inner"), &json!({"x": 1}));
+  let (d3, h3) = disclosure("6Ij7tM-a5iVPGboS5tmvVA", Some("address"), &json!({"_sd": [h4], "city": "X"}));
+  let mut claims = w.credential_claims(None);
+  claims["vc"]["credentialSubject"] = json!({"degree": {"type": "BachelorDegree"}, "_sd": [h1, h3], "nationalities": ["US", {"...": h2}]});
+  claims["_sd_alg"] = json!("sha-256");
+  SdParts { claims, disclosures: vec![d1, d2, d3, d4] }
+}
+
+pub fn kb_jwt(w: &World, frag: &str, jwt: &str, disclosures: &[String], typ: &str, claims_patch: Option<(&str, Value)>, m: SigMod) -> String {
+  let payload = format!("{}~{}~", jwt, disclosures.join("~"));
+  let mut claims = json!({"iat": 1_700_000_000i64, "aud": "https://verifier.example.org", "nonce": "nonce-1", "sd_hash": url_encode(&sha256(payload.as_bytes()))});
+  if let Some((k, val)) = claims_patch {
+    if val.is_null() {
+      claims.as_object_mut().map(|o| o.remove(k));
+    } else {
+      claims[k] = val;
+    }
+  }
+  let h = format!(r#"{{"alg":"{}","typ":{},"kid":"{}#{}"}}"#, alg_of(frag), serde_json::to_string(typ).unwrap_or_default(), HOLDER_DID, frag);
+  sign_compact(w.holder_key(frag), &h, claims.to_string().as_bytes(), m)
+}
+
+pub fn assemble(jwt: &str, disclosures: &[String], kb: Option<&str>) -> String {
+  let mut s = jwt.to_string();
+  for d in disclosures {
+    s.push('~');
+    s.push_str(d);
+  }
+  s.push('~');
+  if let Some(k) = kb {
+    s.push_str(k);
+  }
+  s
+}
+
+fn cred_header(frag: &str, extra: &str) -> String {
+  World::header(alg_of(frag), &format!("{}#{}", ISSUER_DID, frag), extra)
+}
+
+pub fn hostile_statuses(w: &World) -> Vec<Value> {
+  let mut v = vec![Value::Null];
+  for n in NUM_TOKENS.iter().take(30) {
+    v.push(json!({"id": format!("{}#rev", ISSUER_DID), "type": "RevocationBitmap2022", "revocationBitmapIndex": n}));
+    v.push(json!({"id": "https://example.com/credentials/status/3#1", "type": "StatusList2021Entry", "statusPurpose": "revocation", "statusListIndex": n, "statusListCredential": "https://example.com/credentials/status/3"}));
+  }
+  for f in ["#rev", "#rev-bad", "#rev-http", "#rev-set", "#ld", "#nope", "#ed", "", "?index=5#rev", "?index=6#rev", "?index=x#rev", "/p#rev"] {
+    v.push(json!({"id": format!("{}{}", ISSUER_DID, f), "type": "RevocationBitmap2022", "revocationBitmapIndex": "5"}));
+    v.push(json!({"id": format!("{}{}", ISSUER_DID, f), "type": "RevocationBitmap2022", "revocationBitmapIndex": "7"}));
+  }
+  v.push(json!({"id": " did:x:y#rev", "type": "RevocationBitmap2022", "revocationBitmapIndex": "5"}));
+  v.push(json!({"id": "a:", "type": "RevocationBitmap2022"}));
+  v.push(json!({"id": "a:", "type": "X", "revocationBitmapIndex": {"a": 1}}));
+  v.push(json!("x"));
+  let _ = w;
+  v
+}
+
+pub fn run(cx: &mut Cx, w: &World, rng: &mut Rng, budget: u64) {
+  cx.set("valid", "directed");
+  let v = V::new(w);
+  let mut k = 0u64;
+  let base_claims = w.credential_claims(Some(json!({"id": format!("{}#rev", ISSUER_DID), "type": "RevocationBitmap2022", "revocationBitmapIndex": "7"})));
+
+  // ---- credentials: every kid (valid + hostile keys) x signature modifications
+  let mut frags: Vec<String> = ["ed", "p256", "k256", "ed-noalg", "mb", "mb-bad", "embedded-auth", "nope", ""].iter().map(|s| s.to_string()).collect();
+  frags.extend(w.hostile.iter().map(|(f, _)| f.clone()));
+  for frag in &frags {
+    for (mi, m) in SIGMODS.iter().enumerate() {
+      if mi > 0 && !["ed", "p256", "k256"].contains(&frag.as_str()) {
+        continue;
+      }
+      k += 1;
+      if cx.args.mine(k) {
+        let tok = sign_compact(w.issuer_key(frag), &cred_header(frag, ""), base_claims.to_string().as_bytes(), *m);
+        validate_credential(cx, &v, w, rng, &tok, mi == 0 && frag.len() <= 4);
+      }
+    }
+  }
+  // kid spellings
+  for kid in ["#ed", "ed", "", " ", "did:example:other#ed", &format!("{}", ISSUER_DID), &format!(" {}#ed", ISSUER_DID), &format!("{}#ed ", ISSUER_DID), &format!("{}/p?q#ed", ISSUER_DID), &format!("{}#", ISSUER_DID), "did:example:%41#k", "é"] {
+    k += 1;
+    if cx.args.mine(k) {
+      let h = World::header("EdDSA", kid, "");
+      let tok = sign_compact(&w.ed, &h, base_claims.to_string().as_bytes(), SigMod::Good);
+      validate_credential(cx, &v, w, rng, &tok, false);
+      validate_presentation(cx, &v, w, rng, &tok, false);
+    }
+  }
+  // header variants on an otherwise valid credential
+  for extra in [r#","nonce":"n""#, r#","typ":"JWT","cty":"x""#, r#","b64":false,"crit":["b64"]"#, r#","crit":["zzz"]"#, r#","crit":[]"#, r#","jwk":{"kty":"EC","crv":"P-256","x":"AA","y":"AA"}"#, r#","alg":"none""#, r#","kid":1"#] {
+    k += 1;
+    if cx.args.mine(k) {
+      let tok = sign_compact(&w.ed, &cred_header("ed", extra), base_claims.to_string().as_bytes(), SigMod::Good);
+      validate_credential(cx, &v, w, rng, &tok, false);
+    }
+  }
+  // claims: hostile statuses, dates, issuers, shapes — correctly signed so that they reach the checks
+  let mut claim_sets: Vec<Value> = Vec::new();
+  for st in hostile_statuses(w) {
+    claim_sets.push(w.credential_claims(if st.is_null() { None } else { Some(st) }));
+  }
+  for key in ["exp", "nbf", "iat"] {
+    for n in NUM_TOKENS {
+      let mut c = base_claims.clone();
+      if let Ok(val) = serde_json::from_str::<Value>(n) {
+        c[key] = val;
+        claim_sets.push(c.clone());
+      }
+      c[key] = json!(n);
+      claim_sets.push(c);
+    }
+  }
+  for iss in [" did:example:1", "did:example:1/p?q#f", "did:example:%41", "https://example.edu/issuers/14", "a:", HOLDER_DID, &format!("{}\n", ISSUER_DID), &format!("{}#ed", ISSUER_DID), &ISSUER_DID.to_uppercase()] {
+    let mut c = base_claims.clone();
+    c["iss"] = json!(iss);
+    claim_sets.push(c.clone());
+    c["iss"] = json!({"id": iss, "name": "x"});
+    claim_sets.push(c.clone());
+    c["vc"]["issuer"] = json!(iss);
+    claim_sets.push(c);
+  }
+  for (path, val) in [
+    ("vc", json!(null)), ("vc", json!({})), ("vc", json!([])), ("sub", json!("not a url")), ("sub", json!(1)), ("jti", json!("")), ("nbf", json!(null)), ("exp", json!(null)), ("iss", json!(null)),
+    ("vc", json!({"@context": [], "type": [], "credentialSubject": {}})),
+    ("vc", json!({"@context": "https://www.w3.org/2018/credentials/v1", "type": "VerifiableCredential", "credentialSubject": [{"id": "a:"}, {"id": "b:"}]})),
+    ("vc", json!({"@context": "https://www.w3.org/2018/credentials/v1", "type": "VerifiableCredential", "credentialSubject": {"id": "did:example:other"}, "issuanceDate": "2010-01-01T00:00:00Z", "expirationDate": "2010-01-01T00:00:00Z", "issuer": "did:example:x", "id": "a:"})),
+    ("vc", json!({"@context": "https://www.w3.org/2018/credentials/v1", "type": "VerifiableCredential", "credentialSubject": {}, "nonTransferable": true, "proof": {"type": "x"}, "evidence": [], "termsOfUse": {}, "refreshService": [1]})),
+  ] {
+    let mut c = base_claims.clone();
+    if val.is_null() {
+      c.as_object_mut().map(|o| o.remove(path));
+    } else {
+      c[path] = val;
+    }
+    claim_sets.push(c);
+  }
+  for c in &claim_sets {
+    k += 1;
+    if cx.args.mine(k) {
+      let frag = ["ed", "p256", "k256"][(k % 3) as usize];
+      let tok = sign_compact(w.issuer_key(frag), &cred_header(frag, ""), c.to_string().as_bytes(), SigMod::Good);
+      validate_credential(cx, &v, w, rng, &tok, false);
+    }
+  }
+
+  // ---- presentations
+  let good_cred = sign_compact(&w.ed, &cred_header("ed", ""), base_claims.to_string().as_bytes(), SigMod::Good);
+  let hfrags: Vec<String> = {
+    let mut f: Vec<String> = ["ed", "p256", "ed-noalg", "mb", "nope"].iter().map(|s| s.to_string()).collect();
+    f.extend(w.hostile.iter().map(|(x, _)| x.clone()));
+    f
+  };
+  let pres_base = w.presentation_claims(vec![json!(good_cred)]);
+  for frag in &hfrags {
+    for (mi, m) in SIGMODS.iter().enumerate() {
+      if mi > 0 && !["ed", "p256"].contains(&frag.as_str()) {
+        continue;
+      }
+      k += 1;
+      if cx.args.mine(k) {
+        let h = World::header(alg_of(frag), &format!("{}#{}", HOLDER_DID, frag), "");
+        let tok = sign_compact(w.holder_key(frag), &h, pres_base.to_string().as_bytes(), *m);
+        validate_presentation(cx, &v, w, rng, &tok, mi == 0 && frag.len() <= 4);
+      }
+    }
+  }
+  let mut pres_sets: Vec<Value> = Vec::new();
+  for key in ["exp", "nbf", "iat"] {
+    for n in NUM_TOKENS {
+      let mut c = pres_base.clone();
+      if let Ok(val) = serde_json::from_str::<Value>(n) {
+        c[key] = val;
+        pres_sets.push(c.clone());
+      }
+      if key == "iat" {
+        c.as_object_mut().map(|o| o.remove("nbf"));
+        pres_sets.push(c);
+      }
+    }
+  }
+  for (path, val) in [
+    ("iss", json!(" did:x:y")), ("iss", json!("a:")), ("iss", json!("did:example:%41")), ("iss", json!(ISSUER_DID)), ("aud", json!("not a url")), ("aud", json!(["a:"])), ("vp", json!(null)), ("vp", json!({})),
+    ("vp", json!({"@context": "https://www.w3.org/2018/credentials/v1", "type": "VerifiablePresentation", "verifiableCredential": []})),
+    ("vp", json!({"@context": "https://www.w3.org/2018/credentials/v1", "type": "VerifiablePresentation", "verifiableCredential": ["a.b.c", "", "é", 1]})),
+    ("vp", json!({"@context": [], "type": [], "verifiableCredential": [good_cred, good_cred], "holder": "a:", "proof": {"type": "x"}})),
+    ("nbf", json!(null)), ("exp", json!(null)), ("jti", json!(1)),
+  ] {
+    let mut c = pres_base.clone();
+    if val.is_null() {
+      c.as_object_mut().map(|o| o.remove(path));
+    } else {
+      c[path] = val;
+    }
+    pres_sets.push(c);
+  }
+  for c in &pres_sets {
+    k += 1;
+    if cx.args.mine(k) {
+      let frag = ["ed", "p256"][(k % 2) as usize];
+      let h = World::header(alg_of(frag), &format!("{}#{}", HOLDER_DID, frag), if k % 5 == 0 { r#","nonce":"n""# } else { "" });
+      let tok = sign_compact(w.holder_key(frag), &h, c.to_string().as_bytes(), SigMod::Good);
+      validate_presentation(cx, &v, w, rng, &tok, false);
+    }
+  }
+
+  // ---- SD-JWT + KB-JWT
+  let sd = sd_claims(w);
+  let sd_jwt = sign_compact(&w.ed, &cred_header("ed", ""), sd.claims.to_string().as_bytes(), SigMod::Good);
+  let typ = KeyBindingJwtClaims::KB_JWT_HEADER_TYP;
+  let mut sd_cases: Vec<String> = Vec::new();
+  // well-formed, then one defect at a time
+  for frag in &hfrags {
+    for (mi, m) in SIGMODS.iter().enumerate() {
+      if mi > 0 && !["ed", "p256"].contains(&frag.as_str()) {
+        continue;
+      }
+      let kb = kb_jwt(w, frag, &sd_jwt, &sd.disclosures, typ, None, *m);
+      sd_cases.push(assemble(&sd_jwt, &sd.disclosures, Some(&kb)));
+    }
+  }
+  for t in ["kb+jwt", " kb+jwt", "JWT", ""] {
+    let kb = kb_jwt(w, "ed", &sd_jwt, &sd.disclosures, t, None, SigMod::Good);
+    sd_cases.push(assemble(&sd_jwt, &sd.disclosures, Some(&kb)));
+  }
+  for (key, val) in [("iat", json!(-62_167_219_201i64)), ("iat", json!(253_402_300_800i64)), ("iat", json!(i64::MAX)), ("iat", json!(i64::MIN)), ("iat", json!("1")), ("iat", json!(1.5)), ("iat", Value::Null), ("aud", json!(1)), ("aud", Value::Null), ("nonce", Value::Null), ("sd_hash", json!("x")), ("sd_hash", Value::Null), ("extra", json!({"a": [1]}))] {
+    let kb = kb_jwt(w, "ed", &sd_jwt, &sd.disclosures, typ, Some((key, val)), SigMod::Good);
+    sd_cases.push(assemble(&sd_jwt, &sd.disclosures, Some(&kb)));
+  }
+  sd_cases.push(assemble(&sd_jwt, &sd.disclosures, None));
+  sd_cases.push(assemble(&sd_jwt, &[], None));
+  sd_cases.push(assemble(&sd_jwt, &sd.disclosures[..2], None));
+  sd_cases.push(assemble(&sd_jwt, &[sd.disclosures[0].clone(), sd.disclosures[0].clone()], None));
+  sd_cases.push(assemble(&sd_jwt, &["e30".to_string(), "W10".to_string(), "WzFd".to_string(), "!!".to_string(), String::new()], None));
+  sd_cases.push(assemble(&sd_jwt, &sd.disclosures, Some("a.b.c")));
+  sd_cases.push(assemble(&sd_jwt, &sd.disclosures, Some("..")));
+  sd_cases.push(assemble(&sd_jwt, &sd.disclosures, Some(&sd_jwt)));
+  sd_cases.push(sd_jwt.clone());
+  sd_cases.push(format!("{}~", good_cred));
+  sd_cases.push("~".into());
+  sd_cases.push("~~".into());
+  sd_cases.push(String::new());
+  // issuer-side defects: `_sd_alg`, `_sd` shapes, collisions, wrong digests
+  for (path, val) in [
+    ("_sd_alg", json!("sha-512")), ("_sd_alg", json!(1)), ("_sd_alg", json!("")), ("_sd", json!("x")), ("_sd", json!([1])), ("_sd", json!([[]])),
+    ("_sd", json!(["x", "x"])), ("...", json!("x")), ("cnf", json!({"jwk": {"kty": "EC", "crv": "P-256", "x": "AA", "y": "AA"}})),
+  ] {
+    let mut c = sd.claims.clone();
+    c[path] = val;
+    let j = sign_compact(&w.ed, &cred_header("ed", ""), c.to_string().as_bytes(), SigMod::Good);
+    let kb = kb_jwt(w, "ed", &j, &sd.disclosures, typ, None, SigMod::Good);
+    sd_cases.push(assemble(&j, &sd.disclosures, Some(&kb)));
+  }
+  {
+    // claim collision, duplicate digest in nested position, array digest object with two keys
+    let mut c = sd.claims.clone();
+    c["vc"]["credentialSubject"]["GPA"] = json!("clash");
+    sd_cases.push(assemble(&sign_compact(&w.ed, &cred_header("ed", ""), c.to_string().as_bytes(), SigMod::Good), &sd.disclosures, None));
+    let mut c = sd.claims.clone();
+    let h = c["vc"]["credentialSubject"]["_sd"][0].clone();
+    c["vc"]["_sd"] = json!([h]);
+    sd_cases.push(assemble(&sign_compact(&w.ed, &cred_header("ed", ""), c.to_string().as_bytes(), SigMod::Good), &sd.disclosures, None));
+    let mut c = sd.claims.clone();
+    c["vc"]["credentialSubject"]["nationalities"][1]["x"] = json!(1);
+    sd_cases.push(assemble(&sign_compact(&w.ed, &cred_header("ed", ""), c.to_string().as_bytes(), SigMod::Good), &sd.disclosures, None));
+    // non-object claims
+    for p in ["[]", "1", "\"x\"", "null", ""] {
+      sd_cases.push(assemble(&sign_compact(&w.ed, &cred_header("ed", ""), p.as_bytes(), SigMod::Good), &[], None));
+    }
+  }
+  for s in &sd_cases {
+    k += 1;
+    if cx.args.mine(k) {
+      validate_sd_jwt(cx, &v, w, rng, s, true);
+    }
+  }
+
+  // ---- random: mutated claims, random kid / signature / serialisation defects
+  cx.gen("mutation");
+  for _ in 0..budget {
+    match rng.below(10) {
+      0..=3 => {
+        let base = if rng.chance(1, 3) { &claim_sets[rng.usize(claim_sets.len())] } else { &base_claims };
+        let c = if rng.chance(4, 5) { gen::mutate_json(rng, base) } else { base.clone() };
+        let frag = pick_frag(w, rng);
+        let m = if rng.chance(5, 6) { SigMod::Good } else { *rng.pick(SIGMODS) };
+        let extra = if rng.chance(1, 10) { *rng.pick(&[r#","nonce":"n""#, r#","b64":false,"crit":["b64"]"#, r#","typ":1"#, r#","crit":["x"]"#]) } else { "" };
+        let tok = sign_compact(w.issuer_key(&frag), &cred_header(&frag, extra), c.to_string().as_bytes(), m);
+        let tok = if rng.chance(1, 12) { gen::mutate_str(rng, &tok, "") } else { tok };
+        validate_credential(cx, &v, w, rng, &tok, false);
+      }
+      4..=6 => {
+        let base = if rng.chance(1, 3) { &pres_sets[rng.usize(pres_sets.len())] } else { &pres_base };
+        let c = if rng.chance(4, 5) { gen::mutate_json(rng, base) } else { base.clone() };
+        let frag = if rng.chance(2, 3) { rng.pick(&["ed", "p256"]).to_string() } else { pick_frag(w, rng) };
+        let m = if rng.chance(5, 6) { SigMod::Good } else { *rng.pick(SIGMODS) };
+        let h = World::header(alg_of(&frag), &format!("{}#{}", HOLDER_DID, frag), "");
+        let tok = sign_compact(w.holder_key(&frag), &h, c.to_string().as_bytes(), m);
+        let tok = if rng.chance(1, 12) { gen::mutate_str(rng, &tok, "") } else { tok };
+        validate_presentation(cx, &v, w, rng, &tok, false);
+      }
+      _ => {
+        let c = if rng.chance(1, 2) { gen::mutate_json(rng, &sd.claims) } else { sd.claims.clone() };
+        let ifrag = if rng.chance(3, 4) { "ed".to_string() } else { pick_frag(w, rng) };
+        let j = sign_compact(w.issuer_key(&ifrag), &cred_header(&ifrag, ""), c.to_string().as_bytes(), if rng.chance(9, 10) { SigMod::Good } else { *rng.pick(SIGMODS) });
+        let mut ds = sd.disclosures.clone();
+        match rng.below(6) {
+          0 => {
+            let i = rng.usize(ds.len());
+            ds.remove(i);
+          }
+          1 => {
+            let val = gen::hostile_scalar(rng);
+            ds.push(disclosure("s", if rng.bool() { Some(gen::pick_s(rng, gen::KEY_TOKENS)) } else { None }, &val).0);
+          }
+          2 => {
+            let i = rng.usize(ds.len());
+            let raw = vh::b64::url_decode(&ds[i]).unwrap_or_default();
+            ds[i] = url_encode(&gen::mutate_bytes(rng, &raw, b"[\"a\",\"_sd\",[\"x\"]]"));
+          }
+          3 => rng.shuffle(&mut ds),
+          _ => {}
+        }
+        let kb = if rng.chance(4, 5) {
+          let hf = if rng.chance(2, 3) { rng.pick(&["ed", "p256"]).to_string() } else { pick_frag(w, rng) };
+          let patch = if rng.chance(1, 3) { Some((gen::pick_s(rng, &["iat", "aud", "nonce", "sd_hash", "x"]), gen::hostile_scalar(rng))) } else { None };
+          let patch = patch.filter(|(_, v)| !v.is_null());
+          Some(kb_jwt(w, &hf, &j, &ds, if rng.chance(5, 6) { typ } else { "kb+jwt" }, patch, if rng.chance(3, 4) { SigMod::Good } else { *rng.pick(SIGMODS) }))
+        } else {
+          None
+        };
+        let s = assemble(&j, &ds, kb.as_deref());
+        let s = if rng.chance(1, 10) { gen::mutate_str(rng, &s, "~") } else { s };
+        validate_sd_jwt(cx, &v, w, rng, &s, false);
+      }
+    }
+  }
+}
